@@ -62,6 +62,74 @@ def _unknown_violations(ctx):
     return [v for v in ctx.violations if lib.match_known(ctx.prop, v, known) is None]
 
 
+def run_shard(prop, fn, seed, k, n):
+    """One shard of a thorough run: generators + correspondence, summary to .work/."""
+    import json as _json
+    ctx = lib.Ctx(prop, 'thorough', seed * 1009 + k)
+    ctx.shard, ctx.nshards = k, n
+    ctx.budget_s = int(os.environ.get('VERIF_SHARD_S', '420'))
+    rc = 0
+    rounds = 0
+    import random as _random
+    try:
+        # repeat the generators with fresh randomness until the shard's time budget is used
+        while True:
+            fn(ctx)
+            ctx.flush_model()
+            rounds += 1
+            if ctx.time_left() < 0.25 * ctx.budget_s or ctx.violations or ctx.disagreements or rounds >= 200:
+                break
+            ctx.rng = _random.Random((seed * 1009 + k) * 7919 + rounds)
+    except Exception:  # noqa: BLE001
+        traceback.print_exc()
+        rc = 2
+    ctx.notes.append(f'shard {k}: {rounds} rounds')
+    out = dict(rc=rc, evaluations=ctx.evaluations, hashes=sorted(ctx.case_hashes), samples=ctx.samples[:2],
+               dist=ctx.dist, violations=ctx.violations[:50], n_violations=len(ctx.violations),
+               disagreements=ctx.disagreements[:20], lines=ctx.sessions_lines, traces=ctx.traces,
+               notes=ctx.notes, exhaustive=ctx.exhaustive)
+    os.makedirs(lib.WORK, exist_ok=True)
+    with open(os.path.join(lib.WORK, f'shard_{prop}_{k}.json'), 'w') as f:
+        _json.dump(out, f, default=str)
+    return rc
+
+
+def run_shards(ctx, prop, seed):
+    import json as _json
+    import subprocess
+    n = int(os.environ.get('VERIF_SHARDS', '12'))
+    procs = []
+    for k in range(n):
+        env = dict(os.environ, VERIF_SHARD=str(k), VERIF_SHARDS=str(n), VERIF_SEED=str(seed))
+        procs.append(subprocess.Popen(
+            [sys.executable, os.path.abspath(__file__), prop, '--tier', 'thorough'], env=env,
+            stdout=subprocess.DEVNULL, stderr=subprocess.PIPE, text=True))
+    ok = True
+    for k, p in enumerate(procs):
+        _out, err = p.communicate()
+        path = os.path.join(lib.WORK, f'shard_{prop}_{k}.json')
+        if p.returncode != 0 or not os.path.exists(path):
+            print(f'shard {k} failed (rc={p.returncode}):', (err or '')[-800:])
+            ok = False
+            continue
+        with open(path) as f:
+            d = _json.load(f)
+        os.remove(path)
+        ctx.evaluations += d['evaluations']
+        ctx.case_hashes |= set(d['hashes'])
+        ctx.samples.extend(d['samples'])
+        for kk, v in d['dist'].items():
+            ctx.dist[kk] = ctx.dist.get(kk, 0) + v
+        ctx.violations.extend(d['violations'])
+        ctx.disagreements.extend(d['disagreements'])
+        ctx.sessions_lines += d['lines']
+        ctx.traces += d['traces']
+        ctx.notes.extend(x for x in d['notes'] if x not in ctx.notes)
+        ctx.exhaustive = ctx.exhaustive or d['exhaustive']
+    ctx.notes.append(f'thorough: {n} shards, sub-seeds {seed}*1009+k, {os.environ.get("VERIF_SHARD_S", "420")} s budget each')
+    return ok
+
+
 def main():
     ap = argparse.ArgumentParser()
     ap.add_argument('prop')
@@ -79,18 +147,27 @@ def main():
             data = json.load(f)
         print(json.dumps(data, indent=1)[:4000])
         seed = data.get('seed', seed)
-    fn, rule = reg[args.prop]
+    fn, rule = reg[args.prop][:2]
+    shard = os.environ.get('VERIF_SHARD')
+    if shard is not None:
+        return run_shard(args.prop, fn, seed, int(shard), int(os.environ.get('VERIF_SHARDS', '1')))
     ctx = lib.Ctx(args.prop, tier, seed)
     try:
         lean = lib.lean_side(args.prop, thorough=(tier == 'thorough'))
     except Exception:  # noqa: BLE001
         traceback.print_exc()
         return 2
-    try:
-        fn(ctx)
-    except Exception:  # noqa: BLE001
-        traceback.print_exc()
-        return 2
+    if tier == 'thorough' and os.environ.get('VERIF_NO_SHARDS') != '1':
+        # thorough: the generators run as independent shards on all cores, each with its own
+        # sub-seed and time budget; the parent aggregates what they covered and found
+        if not run_shards(ctx, args.prop, seed):
+            return 2
+    else:
+        try:
+            fn(ctx)
+        except Exception:  # noqa: BLE001
+            traceback.print_exc()
+            return 2
     # a proof obligation or the correspondence broke and no failing input was seen yet:
     # search harder on the real code (the property's own thorough generators, bounded in time)
     ctx.flush_model()
